@@ -554,7 +554,7 @@ def r11_no_borrowed_wire_strings(ctx):
     """a request spelled with JSON escapes (e.g. "jsonrpc":"2\\u002e0") is the same request: no wire type deserialises a
     member as a borrowed &str / &[u8] (= C15.R7)"""
     from . import c15
-    n = c15._borrowed_str_scan(ctx.F, ctx.R, r"^<?jsonrpsee_(types|core)::", "C01.R11")
+    n = c15._borrowed_str_scan(ctx.F, ctx.R, r"^<?jsonrpsee_(types|core|server)::", "C01.R11")
     ctx.R.ok("C01.R11", "no-borrowed-str", "%d deserialisation sites inspected" % n)
     ctx.R.floor("C01.R11", n, 40, "deserialisation sites in types/core")
 
